@@ -594,4 +594,148 @@ theorem scanAux_rem_nil : ∀ (f : Nat) (s : Str), s.length < f → (scanAux pin
       simp only [List.length_drop]
       omega
 
+
+/-! ## a simple class: quote-free words (ASCII letters, then letters / digits / `_`) are one NAME token -/
+
+def letters : Str := "abcdefghijklmnopqrstuvwxyzABCDEFGHIJKLMNOPQRSTUVWXYZ_".toList
+def wordChars : Str := letters ++ "0123456789".toList
+
+/-- what the proof needs about a first character of a word -/
+structure StartFacts (c : Char) : Prop where
+  nd : isDigit c = false
+  ns : isSpace c = false
+  st : isNameStart c = true
+  ne : ∀ x ∈ "-. *+=!<>|()[]/\"',$}".toList, c ≠ x
+
+theorem letters_facts : ∀ c ∈ letters, isDigit c = false ∧ isSpace c = false ∧ isNameStart c = true ∧
+    ("-. *+=!<>|()[]/\"',$}".toList.all fun x => c != x) = true := by decide
+
+theorem startFacts_of_letter (c : Char) (h : c ∈ letters) : StartFacts c := by
+  obtain ⟨a, b, d, e⟩ := letters_facts c h
+  refine ⟨a, b, d, ?_⟩
+  intro x hx
+  have := List.all_eq_true.1 e x hx
+  simpa using this
+
+theorem wordChars_name : ∀ c ∈ wordChars, (isNameStart c || isNameExtra c) = true := by decide
+
+theorem ncTail_word : ∀ (f : Nat) (s : Str), (∀ c ∈ s, c ∈ wordChars) → s.length ≤ f → ncTail f s = []
+  | 0, s, _, hl => by
+    have : s = [] := List.length_eq_zero_iff.1 (Nat.le_zero.1 hl)
+    subst this; rfl
+  | f + 1, [], _, _ => rfl
+  | f + 1, c :: cs, h, hl => by
+    have hc := wordChars_name c (h c (by simp))
+    simp only [ncTail, hc, if_true]
+    exact ncTail_word f cs (fun x hx => h x (by simp [hx])) (by simp only [List.length_cons] at hl; omega)
+
+theorem qName_word (c : Char) (cs : Str) (hc : StartFacts c) (h : ∀ x ∈ cs, x ∈ wordChars) : qName (c :: cs) = some [] := by
+  simp only [qName, ncName, hc.st, if_true, ncTail_word cs.length cs h (Nat.le_refl _)]
+
+theorem lit_ne (x c : Char) (p cs : Str) (h : c ≠ x) : lit (x :: p) (c :: cs) = none := by
+  have : (c == x) = false := beq_false_of_ne h
+  simp [lit, startsWith, this]
+
+theorem optMinus_ne (c : Char) (cs : Str) (h : c ≠ '-') : optMinus (c :: cs) = c :: cs := by
+  unfold optMinus
+  split
+  · rename_i r heq; simp only [List.cons.injEq] at heq; exact absurd heq.1 h
+  · rfl
+
+section word
+variable (c : Char) (cs : Str) (hc : StartFacts c)
+include hc
+
+theorem mem_ne (x : Char) (hx : x ∈ "-. *+=!<>|()[]/\"',$}".toList) : c ≠ x := hc.ne x hx
+
+theorem digitsN_start (k : Nat) : digitsN (k + 1) (c :: cs) = none := by simp [digitsN, hc.nd]
+
+theorem mDate_start : mDate (c :: cs) = none := by
+  unfold mDate
+  rw [optMinus_ne c cs (hc.ne '-' (by decide)), digitsN_start c cs hc 3]; rfl
+
+theorem mTime_start : mTime (c :: cs) = none := by
+  unfold mTime
+  rw [digitsN_start c cs hc 1]; rfl
+
+theorem mNumber_start : mNumber (c :: cs) = none := by
+  unfold mNumber
+  simp only [optMinus_ne c cs (hc.ne '-' (by decide)), digits1, hc.nd, Bool.false_eq_true, if_false]
+  split
+  · rename_i r2 heq; simp only [List.cons.injEq] at heq; exact absurd heq.1 (hc.ne '.' (by decide))
+  · rfl
+
+theorem mOpsMath_start : mOpsMath (c :: cs) = none := by
+  unfold mOpsMath
+  split
+  · rename_i heq; simp only [List.cons.injEq] at heq; exact absurd heq.1 (hc.ne ' ' (by decide))
+  · rename_i heq; simp only [List.cons.injEq] at heq; exact absurd heq.1 (hc.ne ' ' (by decide))
+  · rename_i c' r heq
+    simp only [List.cons.injEq] at heq
+    obtain ⟨rfl, _⟩ := heq
+    have a : (c == '*') = false := beq_false_of_ne (hc.ne '*' (by decide))
+    have b : (c == '+') = false := beq_false_of_ne (hc.ne '+' (by decide))
+    have d : (c == '-') = false := beq_false_of_ne (hc.ne '-' (by decide))
+    simp [a, b, d]
+  · rfl
+
+theorem mOpsComp_start : mOpsComp (c :: cs) = none := by
+  unfold mOpsComp
+  split
+  · rename_i heq; simp only [List.cons.injEq] at heq; exact absurd heq.1 (hc.ne '!' (by decide))
+  · rename_i c' r heq
+    simp only [List.cons.injEq] at heq
+    obtain ⟨rfl, _⟩ := heq
+    have a : (c == '=') = false := beq_false_of_ne (hc.ne '=' (by decide))
+    have b : (c == '<') = false := beq_false_of_ne (hc.ne '<' (by decide))
+    have d : (c == '>') = false := beq_false_of_ne (hc.ne '>' (by decide))
+    simp [a, b, d]
+  · rfl
+
+theorem mOpsBool_start : mOpsBool (c :: cs) = none := by
+  unfold mOpsBool
+  split
+  · rename_i heq; simp only [List.cons.injEq] at heq; exact absurd heq.1 (hc.ne ' ' (by decide))
+  · rename_i heq; simp only [List.cons.injEq] at heq; exact absurd heq.1 (hc.ne ' ' (by decide))
+  · rfl
+
+theorem mSysLit_start : mSysLit (c :: cs) = none := by
+  unfold mSysLit
+  split
+  · rename_i heq; simp only [List.cons.injEq] at heq; exact absurd heq.1 (hc.ne '"' (by decide))
+  · rename_i heq; simp only [List.cons.injEq] at heq; exact absurd heq.1 (hc.ne '\'' (by decide))
+  · rfl
+
+theorem mWhitespace_start : mWhitespace (c :: cs) = none := by simp [mWhitespace, hc.ns]
+
+theorem mPyxformRef_start : mPyxformRef (c :: cs) = none := by
+  unfold mPyxformRef
+  rw [lit_ne '$' c _ cs (hc.ne '$' (by decide))]; rfl
+
+end word
+
+/-- a quote-free word is exactly one NAME token -/
+theorem scan_word (c : Char) (cs : Str) (hc : c ∈ letters) (h : ∀ x ∈ cs, x ∈ wordChars) :
+    scanWith pinnedRules (c :: cs) = ([("NAME", c :: cs)], []) := by
+  have f := startFacts_of_letter c hc
+  have hq := qName_word c cs f h
+  have hfm : firstMatch pinnedRules (c :: cs) = some ("NAME", (c :: cs).length) := by
+    rw [pinnedRules_eq]
+    simp only [firstMatch, mDateTime, mDate_start c cs f, mTime_start c cs f, mNumber_start c cs f,
+      mOpsMath_start c cs f, mOpsComp_start c cs f, mOpsBool_start c cs f, mSysLit_start c cs f,
+      mWhitespace_start c cs f, mPyxformRef_start c cs f, Option.bind_none,
+      lit_ne '|' c _ cs (f.ne '|' (by decide)), lit_ne '(' c _ cs (f.ne '(' (by decide)),
+      lit_ne ')' c _ cs (f.ne ')' (by decide)), lit_ne '[' c _ cs (f.ne '[' (by decide)),
+      lit_ne '.' c _ cs (f.ne '.' (by decide)), lit_ne '/' c _ cs (f.ne '/' (by decide)),
+      lit_ne ',' c _ cs (f.ne ',' (by decide)), lit_ne ']' c _ cs (f.ne ']' (by decide)),
+      qNameThen, hq, Option.bind_some, List.length_nil, Nat.sub_zero]
+    simp [lit, startsWith]
+  unfold scanWith
+  rw [scanAux, hfm]
+  have hk : ¬ ((c :: cs).length = 0) := by simp
+  simp only [hk, if_false, List.drop_length, List.take_length]
+  cases hlen : (c :: cs).length with
+  | zero => simp at hlen
+  | succ n => rw [scanAux, firstMatch_nil]
+
 end Pyxv.Lexer
